@@ -23,6 +23,7 @@ import (
 	"context"
 	"errors"
 	"fmt"
+	"strings"
 	"testing"
 
 	"github.com/google/cel-go/cel"
@@ -70,6 +71,7 @@ type c01EH struct {
 	K        string       `json:"k"` // default redirect www fails panics silent
 	Code     int          `json:"code,omitempty"`
 	To       string       `json:"to,omitempty"`
+	Tmpl     bool         `json:"to_from_header,omitempty"` // `to` is the template {{ .Request.Header "X-Login-Url" }}
 	Render   bool         `json:"render_fails,omitempty"`
 	Realm    string       `json:"realm,omitempty"`
 	E        *stacks.Node `json:"e,omitempty"`
@@ -90,6 +92,7 @@ type c01Case struct {
 	Lookup   string         `json:"lookup"` // matched default norule
 	Rule     *c01Rule       `json:"rule,omitempty"`
 	Slash    bool           `json:"encoded_slash,omitempty"`  // the request path contains %2F
+	LoginURL *string        `json:"login_url_header"`         // X-Login-Url request header (nil = absent), rendered by `to` templates
 	Shadow   bool           `json:"shadow_default,omitempty"` // matched: an always-succeeding default rule is installed too
 	Upstream bool           `json:"-"`
 }
@@ -231,6 +234,10 @@ func c01Mechanism(d c01EH) errorHandler {
 		eh, err = errorhandlers.CreatePrototype(nil, "eh", errorhandlers.ErrorHandlerDefault, nil)
 	case "redirect":
 		conf := map[string]any{"to": d.To}
+		if d.Tmpl {
+			conf["to"] = `{{ .Request.Header "X-Login-Url" }}`
+		}
+
 		if d.Render {
 			conf["to"] = `{{ len .Request.NoSuchField }}`
 		}
@@ -372,13 +379,18 @@ func c01Run(c c01Case, up *stacks.Upstream) c01Obs {
 		return c01Entry{Res: res, Hits: up.Hits() - before}
 	}
 
-	o.Decision = measure(func() stacks.Result { return stacks.NewDecision(c.R, exec).DoPath(path, nil) })
-	o.Proxy = measure(func() stacks.Result { return stacks.NewProxy(c.R, exec).DoPath(path, nil) })
+	hdrs := map[string]string{}
+	if c.LoginURL != nil {
+		hdrs["X-Login-Url"] = *c.LoginURL
+	}
+
+	o.Decision = measure(func() stacks.Result { return stacks.NewDecision(c.R, exec).DoHeaders(path, hdrs) })
+	o.Proxy = measure(func() stacks.Result { return stacks.NewProxy(c.R, exec).DoHeaders(path, hdrs) })
 	o.Envoy = measure(func() stacks.Result {
 		env := stacks.NewEnvoy(c.R, exec)
 		defer env.Close()
 
-		return env.DoPath(path, nil)
+		return env.DoHeaders(path, hdrs)
 	})
 
 	return o
@@ -477,6 +489,7 @@ func (g *c01Gen) eh() c01EH {
 		h.K = "redirect"
 		h.To = vf.Pick(g.r, []string{"http://idp.example/login", "https://x.example/a?b=c", "/local"})
 		h.Render = g.r.Chance(12)
+		h.Tmpl = !h.Render && g.r.Chance(45)
 
 		if g.r.Chance(60) {
 			h.Code = vf.Pick(g.r, stacks.RedirectCodes)
@@ -552,6 +565,17 @@ func c01GenCase(r *vf.Rand) c01Case {
 
 	c.Slash = r.Chance(18)
 
+	// what request-dependent `to` templates of redirect handlers render: nothing, blanks, a URL
+	switch x := r.Intn(100); {
+	case x < 40:
+	case x < 60:
+		v := vf.Pick(r, []string{"", " ", "  \t "})
+		c.LoginURL = &v
+	default:
+		v := vf.Pick(r, []string{"http://idp.example/from-header", "/login?x=1"})
+		c.LoginURL = &v
+	}
+
 	if c.Lookup == "norule" {
 		return c
 	}
@@ -591,6 +615,7 @@ func c01Corpus() []c01Case {
 	arg := &stacks.Node{K: "c", Sub: []stacks.Node{{K: "s", Kind: "authn"}, {K: "w", Sub: []stacks.Node{{K: "s", Kind: "arg"}}}}}
 	ok := c01Outcome{T: "ok"}
 	none := c01Cond{T: "none"}
+	blank, fromHeader := "  ", "http://idp.example/from-header"
 	okAuthn := []c01Authn{{Out: ok}}
 
 	return []c01Case{
@@ -640,6 +665,13 @@ func c01Corpus() []c01Case {
 			EH: []c01EH{{If: c01Cond{T: "err", E: &stacks.Node{K: "f", N: 1}}, K: "default"}}}},
 		{Lookup: "matched", Rule: &c01Rule{SC: []c01Authn{{Out: c01Outcome{T: "fail", E: authz}}}, Backend: true,
 			EH: []c01EH{{If: none, K: "redirect", To: "x", Render: true}}}},
+		// redirect handlers whose `to` template renders nothing / blanks / a URL: a redirect error is recorded all the same
+		{Lookup: "matched", Rule: &c01Rule{SC: []c01Authn{{Out: c01Outcome{T: "fail", E: authn}}}, Backend: true,
+			EH: []c01EH{{If: none, K: "redirect", Tmpl: true}}}},
+		{Lookup: "default", LoginURL: &blank, Rule: &c01Rule{SC: []c01Authn{{Out: c01Outcome{T: "fail", E: authz}}}, Backend: true,
+			EH: []c01EH{{If: none, K: "redirect", Tmpl: true, Code: 303}, {If: none, K: "default"}}}},
+		{Lookup: "matched", LoginURL: &fromHeader, Rule: &c01Rule{SC: []c01Authn{{Out: c01Outcome{T: "fail", E: authn}}}, Backend: true,
+			EH: []c01EH{{If: none, K: "redirect", Tmpl: true}}}},
 		// panics: authenticator (error value carrying an authentication error), condition, error handler
 		{Lookup: "matched", Rule: &c01Rule{SC: []c01Authn{{Out: c01Outcome{T: "panic", PanicErr: true, E: authn}}}, Backend: true}},
 		{Lookup: "matched", Rule: &c01Rule{SC: okAuthn, FI: []c01Step{{If: c01Cond{T: "panic"}, Out: ok, Continue: true}}, Backend: true}},
@@ -698,7 +730,16 @@ func c01CoqSteps(ds []c01Step) string {
 	})
 }
 
-func c01CoqEH(h c01EH) string {
+// c01Rendered is what the template {{ .Request.Header "X-Login-Url" }} renders on the case's request
+func c01Rendered(login *string) string {
+	if login == nil {
+		return ""
+	}
+
+	return *login
+}
+
+func c01CoqEH(h c01EH, login *string) string {
 	var k string
 
 	switch h.K {
@@ -706,6 +747,10 @@ func c01CoqEH(h c01EH) string {
 		k = "(EhReal MDefault)"
 	case "redirect":
 		to := "(Some " + vf.CoqStr(h.To) + ")"
+		if h.Tmpl {
+			to = "(Some " + vf.CoqStr(c01Rendered(login)) + ")"
+		}
+
 		if h.Render {
 			to = "None"
 		}
@@ -724,10 +769,11 @@ func c01CoqEH(h c01EH) string {
 	return vf.CoqApp("ehs", c01CoqCond(h.If), k)
 }
 
-func c01CoqRule(d *c01Rule) string {
+func c01CoqRule(d *c01Rule, login *string) string {
 	return vf.CoqApp("rl",
 		vf.CoqListOf(d.SC, func(a c01Authn) string { return vf.CoqApp("au", c01CoqOutcome(a.Out), vf.CoqBool(a.Fallback)) }),
-		c01CoqSteps(d.SH), c01CoqSteps(d.FI), vf.CoqListOf(d.EH, c01CoqEH), vf.CoqBool(d.Backend), vf.CoqBool(d.SlashesOff))
+		c01CoqSteps(d.SH), c01CoqSteps(d.FI), vf.CoqListOf(d.EH, func(h c01EH) string { return c01CoqEH(h, login) }),
+		vf.CoqBool(d.Backend), vf.CoqBool(d.SlashesOff))
 }
 
 func c01CoqGCode(s string) string {
@@ -781,9 +827,9 @@ func c01CoqCase(c c01Case, o c01Obs) string {
 
 	switch c.Lookup {
 	case "matched":
-		l = vf.CoqApp("Matched", c01CoqRule(c.Rule))
+		l = vf.CoqApp("Matched", c01CoqRule(c.Rule, c.LoginURL))
 	case "default":
-		l = vf.CoqApp("Default", c01CoqRule(c.Rule))
+		l = vf.CoqApp("Default", c01CoqRule(c.Rule, c.LoginURL))
 	default:
 		l = "NoRule"
 	}
@@ -877,6 +923,17 @@ func c01Tags(c c01Case, o c01Obs) []string {
 
 		for _, h := range c.Rule.EH {
 			t = append(t, "eh:"+h.K)
+
+			if h.K == "redirect" && h.Tmpl {
+				switch {
+				case c.LoginURL == nil || *c.LoginURL == "":
+					t = append(t, "eh:redirect-to-renders-empty")
+				case strings.TrimSpace(*c.LoginURL) == "":
+					t = append(t, "eh:redirect-to-renders-blank")
+				default:
+					t = append(t, "eh:redirect-to-from-request")
+				}
+			}
 		}
 
 		if c.Slash && c.Rule.SlashesOff {
